@@ -69,10 +69,10 @@ theorem step_one_reply {H : Table} (hH : TableOneReply H) {sv : Server} (hq : Qu
     · rw [exec_eq]; simp only
       split; · exact oneValue_err 0
       split; · exact oneValue_err 2
-      split; · exact oneValue_arr_nonpos 0 (by omega)
       split; · exact oneValue_nullBulk
+      split; · exact oneValue_arr_nonpos 0 (by omega)
       next h1 h2' h3 h4 =>
-        exact absurd ⟨by simpa using h1, h2', by simpa using h3, by simpa using h4⟩ hr
+        exact absurd ⟨by simpa using h1, h2', by simpa using h4, by simpa using h3⟩ hr
   by_cases h1 : c.name = "MULTI"
   · rw [dispatch_multi H sv c h1, multi_eq]; split
     · exact oneValue_err 0
